@@ -8,7 +8,16 @@ package ecs
 // with that entity's handle and component pointer.
 
 func (W *vWorld) batch(q *vQuerySpec) Batch {
-	b := Batch{filter: &q.f}
+	flt := &q.f
+	if vPick("batch-filter-registered", 2) == 1 {
+		// the same masks in a registered filter: the selection then comes from the cache entry
+		// (and must still honour emptiness and the per-call relation targets)
+		f := NewFilter0(W.w)
+		f.filter.mask, f.filter.without, f.filter.hasWithout = q.f.mask, q.f.without, q.f.hasWithout
+		f.Register()
+		flt = &f.filter
+	}
+	b := Batch{filter: flt}
 	if q.hasRel {
 		b.relations = []relationID{{target: q.target, component: W.id[q.relComp]}}
 	}
@@ -365,6 +374,85 @@ func VerifC10_BatchPreconditions() {
 			NewMap1[vChild2](W.w).AddBatch(all.Without(C[vChild2]()).Batch(), &vChild2{})
 		case 5: // some selected entities have the component, some do not
 			NewMap1[vPos](W.w).AddBatch(NewFilter0(W.w).Batch(), &vPos{3, 4})
+		}
+	})
+	vreach("end")
+}
+
+// ---- C10: every checked entry point of World, Unsafe, Map[T], Map1 and Exchange1, called
+// with each kind of unusable handle — removed and never reused, removed with the id reused
+// by a newer entity, the zero entity — panics and leaves the world (model, invariants, lock
+// state, pool) exactly as it was.
+func VerifC10_UnusableHandleMatrix() {
+	vMode = 0
+	W := vShapeFor(1)
+	var stale [3]Entity
+	nStale := 0
+	for j := 0; j < W.n && nStale < 2; j++ { // the relation shape holds both kinds of dead handle
+		if !W.e[j].alive {
+			stale[nStale] = W.e[j].h
+			nStale++
+		}
+	}
+	stale[nStale] = Entity{}
+	nStale++
+	h := stale[vPick("handle", nStale)]
+	p0 := W.e[0].h
+	idA, idB, idR1 := W.id[cA], W.id[cB], W.id[cR1]
+	mA, m1 := NewMap[vPos](W.w), NewMap1[vVel](W.w)
+	mR := NewMap[vChild](W.w)
+	ex := NewExchange1[vVel](W.w).Removes(C[vPos]())
+	call := vPick("call", 24)
+	W.expectReject("unusable-handle", func() {
+		switch call {
+		case 0:
+			W.w.RemoveEntity(h)
+		case 1:
+			W.w.CopyEntity(h)
+		case 2:
+			W.u.Get(h, idA)
+		case 3:
+			W.u.Has(h, idA)
+		case 4:
+			W.u.GetRelation(h, idR1)
+		case 5:
+			W.u.SetRelations(h, RelID(idR1, p0))
+		case 6:
+			W.u.Add(h, idB)
+		case 7:
+			W.u.AddRel(h, []ID{idR1}, RelID(idR1, p0))
+		case 8:
+			W.u.Remove(h, idA)
+		case 9:
+			W.u.Exchange(h, []ID{idB}, []ID{idA})
+		case 10:
+			W.u.IDs(h)
+		case 11:
+			mA.Get(h)
+		case 12:
+			mA.Has(h)
+		case 13:
+			mA.Set(h, &vPos{1, 2})
+		case 14:
+			mA.Add(h, &vPos{1, 2})
+		case 15:
+			mA.AddFn(h, nil)
+		case 16:
+			mA.Remove(h)
+		case 17:
+			mR.GetRelation(h)
+		case 18:
+			mR.SetRelation(h, p0)
+		case 19:
+			m1.Get(h)
+		case 20:
+			m1.Add(h, &vVel{3})
+		case 21:
+			m1.Remove(h)
+		case 22:
+			ex.Exchange(h, &vVel{3})
+		case 23:
+			ex.ExchangeFn(h, nil)
 		}
 	})
 	vreach("end")
